@@ -1,7 +1,11 @@
 package checks
 
 import (
+	"encoding/json"
 	"fmt"
+	"os"
+	"os/exec"
+	"strings"
 	"testing"
 	"time"
 
@@ -48,7 +52,8 @@ func init() {
 		Oracles:      []scn.Oracle{oracleC01},
 		Outcome:      advOutcome,
 		NeedOutcomes: []string{"paid tx=ok ann=ok", "unpaid tx=amount-1", "unpaid tx=ok ann=inv_hash_other", "unpaid tx=other_hash"},
-		Assumptions:  []string{"Liquid in this tier: transactions carry asset / blinding annotations and the validator is the harness's reference implementation; onchain.LiquidOnChain's validator on real confidential transactions is checked separately (validator enumeration)"},
+		Extra:        c01Extra,
+		Assumptions:  []string{"Liquid in the explicit-state tier: transactions carry asset / blinding annotations and the validator is the harness's reference implementation; the real onchain.LiquidOnChain.ValidateTx is decided by the validator enumeration and the real chain watchers by the watcher sub-check, both part of this check (coverage.liquid_validator_enumeration, coverage.watcher_subcheck)"},
 	})
 }
 
@@ -60,3 +65,117 @@ func pickBackends(tier string) []bool {
 }
 
 func TestC01(t *testing.T) { runProp(t, "C01") }
+
+// c01Watchers decides the "has the required confirmations" clause on the REAL chain watchers: the
+// taker pays when its watcher reports the opening transaction confirmed, and in the explicit-state
+// tier above that watcher is the harness's idealised one.  The confirmation-registration families
+// of the watcher exploration (C20) run here as a sub-check; a confirmation reported for a
+// transaction that is absent, unconfirmed, too shallow or another transaction is a C01 violation.
+func c01Watchers() ([]mc.Violation, map[string]any) {
+	out := fmt.Sprintf("%s/c01w-%d.json", workDir, os.Getpid())
+	cmd := exec.Command(os.Args[0], "-test.run", "^TestC20$", "-test.timeout", "0")
+	cmd.Env = append(os.Environ(), "VERIF_C20_ONLY=/conf", "VERIF_C20_EXPORT="+out)
+	ob, err := cmd.CombinedOutput()
+	b, rerr := os.ReadFile(out)
+	cov := map[string]any{}
+	if rerr != nil {
+		cov["internal"] = []string{fmt.Sprintf("c01 watcher sub-check failed: %v\n%s", err, tail(string(ob), 3000))}
+		return nil, cov
+	}
+	_ = os.Remove(out)
+	var rep struct {
+		Violations []mc.Violation   `json:"violations"`
+		States     int              `json:"states"`
+		Executions int              `json:"executions"`
+		Families   []map[string]any `json:"families"`
+		Internal   []string         `json:"internal"`
+		Exhaustive bool             `json:"exhaustive"`
+	}
+	_ = json.Unmarshal(b, &rep)
+	var vs []mc.Violation
+	for _, v := range rep.Violations {
+		for _, clause := range []string{"confirmed_but_tx_", "confirmed_with_depth", "confirmed_with_wrong_rawtx", "confirmation_callback_without_registration"} {
+			if strings.Contains(v.Key, clause) {
+				vs = append(vs, mc.Violation{Property: "C01", Key: "confirmation_reported_falsely:" + v.Key, Detail: v.Detail, History: v.History, Scenario: "watcher:" + v.Scenario})
+				break
+			}
+		}
+	}
+	if len(rep.Internal) > 0 {
+		cov["internal"] = rep.Internal
+	}
+	var fams []string
+	for _, f := range rep.Families {
+		fams = append(fams, fmt.Sprintf("%v(states=%v,depth=%v)", f["family"], f["states"], f["completed_depth"]))
+	}
+	cov["watcher_subcheck"] = map[string]any{"rule": "confirmation-registration families of the real-watcher exploration (rpc btc/lbtc, electrum lbtc, lnd btc; incl. reorgs, stale answers, RPC faults, mid-call chain changes): a success callback must name a transaction that is in the best chain at the required depth", "states": rep.States, "executions": rep.Executions, "exhaustive": rep.Exhaustive, "families": fams}
+	return vs, cov
+}
+
+// c01Extra: the two parts of C01 that the explicit-state tier takes from idealised components are
+// decided on the real ones here: (1) the Liquid validator (real onchain.LiquidOnChain.ValidateTx on
+// real confidential / explicit transactions: every invalid-opening variant x output layouts x
+// amounts), (2) the chain watchers (see c01Watchers).
+func c01Extra() ([]mc.Violation, map[string]any) {
+	acc := newC03Acc()
+	vstats := c03LqValidator(acc, "thorough")
+	var vs []mc.Violation
+	for _, v := range acc.viol {
+		if v.Property == "C01" {
+			vs = append(vs, v)
+		}
+	}
+	wv, cov := c01Watchers()
+	vs = append(vs, wv...)
+	cov["liquid_validator_enumeration"] = vstats
+	if len(acc.internal) > 0 {
+		l, _ := cov["internal"].([]string)
+		cov["internal"] = append(l, acc.internal...)
+	}
+	return vs, cov
+}
+
+// c07Watchers: C07 needs the chain watcher to REPORT CSV maturity (the explicit-state tier uses the
+// idealised watcher).  The CSV-registration families of the real-watcher exploration run here with
+// a fair continuation after every explored history (services healthy again, chain grows past
+// maturity): a watcher that then stays silent leaves the maker's funds locked.  Families in which the
+// transaction was confirmed BEFORE the registration's height hint are left out: a maker records its start
+// height before it broadcasts, so its own opening transaction cannot confirm earlier (and lnd, by contract,
+// does not find a transaction below the height hint).
+func c07Watchers() ([]mc.Violation, map[string]any) {
+	out := fmt.Sprintf("%s/c07w-%d.json", workDir, os.Getpid())
+	cmd := exec.Command(os.Args[0], "-test.run", "^TestC20$", "-test.timeout", "0")
+	cmd.Env = append(os.Environ(), "VERIF_C20_ONLY=/csv", "VERIF_C20_SKIP=/early", "VERIF_C20_DRAIN=1", "VERIF_C20_EXPORT="+out)
+	ob, err := cmd.CombinedOutput()
+	b, rerr := os.ReadFile(out)
+	cov := map[string]any{}
+	if rerr != nil {
+		cov["internal"] = []string{fmt.Sprintf("c07 watcher sub-check failed: %v\n%s", err, tail(string(ob), 3000))}
+		return nil, cov
+	}
+	_ = os.Remove(out)
+	var rep struct {
+		Violations []mc.Violation   `json:"violations"`
+		States     int              `json:"states"`
+		Executions int              `json:"executions"`
+		Families   []map[string]any `json:"families"`
+		Internal   []string         `json:"internal"`
+		Exhaustive bool             `json:"exhaustive"`
+	}
+	_ = json.Unmarshal(b, &rep)
+	var vs []mc.Violation
+	for _, v := range rep.Violations {
+		if strings.Contains(v.Key, "csv_maturity_never_reported") {
+			vs = append(vs, mc.Violation{Property: "C07", Key: "refund_never_triggered:" + v.Key, Detail: v.Detail, History: v.History, Scenario: "watcher:" + v.Scenario})
+		}
+	}
+	if len(rep.Internal) > 0 {
+		cov["internal"] = rep.Internal
+	}
+	var fams []string
+	for _, f := range rep.Families {
+		fams = append(fams, fmt.Sprintf("%v(states=%v,depth=%v)", f["family"], f["states"], f["completed_depth"]))
+	}
+	cov["watcher_subcheck"] = map[string]any{"rule": "CSV-registration families of the real-watcher exploration (rpc btc, electrum lbtc, lnd btc; reorgs, stale answers, RPC faults, mid-call chain changes) + fair continuation after every history: services healthy, chain grows past maturity => maturity must be reported", "states": rep.States, "executions": rep.Executions, "exhaustive": rep.Exhaustive, "families": fams}
+	return vs, cov
+}
